@@ -21,8 +21,8 @@ from .. import env, tlc, absstate, chainlib
 from ..evidence import Check
 
 
-def cache_consts(setkey=False, keyalpha=True, proto=True):
-    return {"Arr": "{1, 2}", "Alphas": "{1, 2}", "Parents": "{1}", "Points": "{1}", "MaxKids": 2,
+def cache_consts(setkey=False, keyalpha=True, proto=True, weak=False):
+    return {"Arr": "{1, 2}", "Alphas": "{1, 2}", "Parents": "{1}", "Points": "{1}", "MaxKids": 2, "WeakDigest": tlc.tla_bool(weak),
             "LogSKeyIsSet": tlc.tla_bool(setkey), "KeyHasAlpha": tlc.tla_bool(keyalpha), "Protocol": tlc.tla_bool(proto)}
 
 
@@ -31,7 +31,8 @@ def model_runs(ck):
              ("Cache as implemented, arbitrary histories (no protocol)", (False, True, False), "pass"),
              ("Cache keys without alpha but with the clearing protocol", (False, False, True), "pass"),
              ("DEV compute_log_S keyed by the set of digests", (True, True, True), "fail"),
-             ("DEV keys without alpha and no clearing protocol", (False, False, False), "fail")]
+             ("DEV keys without alpha and no clearing protocol", (False, False, False), "fail"),
+             ("DEV content digests that collide on the arrays of a run", (False, True, True, True), "fail")]
     jobs = [dict(job="c14_%d" % i, module="Cache", workers=4, timeout=1500,
                  cfg=tlc.cfg_text(constants=cache_consts(*a), invariants=["HitEqualsRecompute", "OneEntryPerKey"])) for i, (_, a, _) in enumerate(cases)]
     for (label, _, expect), r in zip(cases, tlc.run_many(jobs, max_parallel=3)):
